@@ -92,7 +92,9 @@ func c15Jobs() []c15Job {
 		// ... and scripts that change the builtin OBJECTS (known finding: a pooled VM keeps that)
 		c15Job{Name: "js-changing-builtin-objects", Schema: `{` + h("json") + `,"transform_declarations":{"FINAL_OUTPUT":{"xpath":"/*","object":{
   "a_math":{"custom_func":{"name":"javascript","args":[{"const":"(function(){ var r = Math.zz === undefined ? 'clean' : 'kept:' + Math.zz; Math.zz = n; return r })()"},{"const":"n"},{"xpath":"n","type":"int"}]}},
-  "b_proto":{"custom_func":{"name":"javascript","args":[{"const":"(function(){ var r = typeof [].zzlast; Array.prototype.zzlast = function() { return 1 }; return r })()"}]}}}}}}`,
+  "b_proto":{"custom_func":{"name":"javascript","args":[{"const":"(function(){ var r = typeof [].zzlast; Array.prototype.zzlast = function() { return 1 }; return r })()"}]}},
+  "c_attr":{"custom_func":{"name":"javascript","args":[{"const":"(function(g){ var r = Object.getOwnPropertyDescriptor(g, 'parseInt').writable; Object.defineProperty(g, 'parseInt', {writable: false}); return r })(this)"}]}},
+  "d_tag":{"custom_func":{"name":"javascript","args":[{"const":"(function(g){ var r = String(g); Object.defineProperty(g, Symbol.toStringTag, {value: 'X', configurable: true}); return r })(this)"}]}}}}}}`,
 			Input: `[{"n":1},{"n":2},{"n":3}]`},
 		// a script whose calls nest as deep as the data says (300, 600, 900, 3000 levels)
 		c15Job{Name: "js-deep-recursion", Schema: `{` + h("json") + `,"transform_declarations":{"FINAL_OUTPUT":{"xpath":"/*","object":{
@@ -108,7 +110,8 @@ func c15Jobs() []c15Job {
   "a_json":{"custom_func":{"name":"javascript","args":[{"const":"JSON.stringify(o)"},{"const":"o"},{"template":"OBJ"}]}},
   "b_keys":{"custom_func":{"name":"javascript","args":[{"const":"Object.keys(o).join()"},{"const":"o"},{"template":"OBJ"}]}},
   "c_forin":{"custom_func":{"name":"javascript","args":[{"const":"var s = ''; for (var k in o.inner) { s += k + '=' + o.inner[k] + ';' }; s"},{"const":"o"},{"template":"OBJ"}]}},
-  "d_list":{"custom_func":{"name":"javascript","args":[{"const":"JSON.stringify(l)"},{"const":"l"},{"array":[{"template":"OBJ"},{"xpath":"b"}]}]}}}},
+  "d_list":{"custom_func":{"name":"javascript","args":[{"const":"JSON.stringify(l)"},{"const":"l"},{"array":[{"template":"OBJ"},{"xpath":"b"}]}]}},
+  "e_args":{"custom_func":{"name":"javascript","args":[{"const":"Object.keys(this).join()"},{"const":"zeta"},{"xpath":"a"},{"const":"alpha"},{"xpath":"b"},{"const":"mid"},{"xpath":"c"},{"const":"k10"},{"xpath":"a"},{"const":"k9"},{"xpath":"b"},{"const":"b2"},{"xpath":"c"}]}}}},
  "OBJ":{"object":{"zeta":{"xpath":"a"},"alpha":{"xpath":"b"},"mid":{"xpath":"c"},"k10":{"xpath":"a"},"k9":{"xpath":"b"},"inner":{"object":{"y":{"xpath":"a"},"x":{"xpath":"b"},"w":{"xpath":"c"},"v":{"xpath":"a"}}}}}}}`,
 			Input: `[{"a":"1","b":"2","c":"3"},{"a":"4","b":"5","c":"6"}]`},
 		c15Job{Name: "upper-with-callers-extension", Schema: upperSchema, Input: "alice\nBOB\n", CustomUpper: true},
